@@ -128,6 +128,22 @@ def on_path_before(func: Func, site: ast.AST) -> list[ast.stmt]:
     return out
 
 
+def covers_program(it: ast.expr, prg: str) -> bool:
+    """the iterable visits every statement of the program `prg` (as is, enumerated, or unpooled statement by statement)"""
+    while isinstance(it, ast.Call) and isinstance(it.func, ast.Name) and it.func.id in ("enumerate", "list", "tuple", "iter") and len(it.args) >= 1:
+        it = it.args[0]
+    if isinstance(it, ast.Name):
+        return it.id == prg
+    if isinstance(it, ast.Call) and unparse(it.func) in ("chain.from_iterable", "itertools.chain.from_iterable") and len(it.args) == 1:
+        gen = it.args[0]
+        if isinstance(gen, (ast.GeneratorExp, ast.ListComp)) and len(gen.generators) == 1:
+            g = gen.generators[0]
+            if not g.ifs and isinstance(g.iter, ast.Name) and g.iter.id == prg and isinstance(g.target, ast.Name):
+                elt = gen.elt
+                return isinstance(elt, ast.Call) and isinstance(elt.func, ast.Attribute) and elt.func.attr == "unpool" and unparse(elt.func.value) == g.target.id
+    return False
+
+
 def same(actual: str, expected: str) -> bool:
     """two expression texts are the same up to the condition normal form (operand order of ==, spacing)"""
     from ..nform import canon_expr
